@@ -32,6 +32,12 @@ COMPONENTS = {
 }
 PROBES = ["scan-found", "scan-no-slave", "bit31-set", "inquire", "configure-ok", "configure-error", "wrong-cs", "silence", "late-reply", "selective", "store",
           "unsolicited-reply-before-scan"]
+# probes that mark an injected disturbance; the runner also counts them as fired faults in the evidence
+FAULT_PROBES = {'configure-error': 'lss-error-reply',
+ 'late-reply': 'lss-late-reply',
+ 'silence': 'lss-reply-lost',
+ 'unsolicited-reply-before-scan': 'lss-unsolicited-reply',
+ 'wrong-cs': 'lss-wrong-cs-reply'}
 
 
 def jobs(tier, seed):
